@@ -7,6 +7,18 @@ VERIF = os.path.dirname(os.path.dirname(os.path.abspath(__file__)))
 ALL = [f"C{i:02d}" for i in range(1, 21)]
 
 CLAIMS = {
+    "C01": dict(
+        text="Machine-checked Coq proof (C01_load, by the simulation theorem of C10): for every magic and every payload, whenever CPython's marshal reader of the bytecode's version returns a code-object tree, xdis's reader returns the same tree (all integer fields per the version's layout, code, constants recursively, names, var/free/cell names, filename, name, qualname, first line, line table, exception table) and consumes exactly the same bytes; plus the 3.11+ localsplus split = CPython's three filters. Model tied to load_code by in-Coq correspondence on the corpus (1.0-3.12, PyPy) and on sources/stdlib compiled by each installed interpreter.",
+        note="Trusted: Coq kernel; the single parametrised reader coq/Model/Unmarshal.v (strict = CPython, permissive = xdis) + correspondence on both instantiations: xdis side vs load_code, CPython side vs marshal.loads of the installed 2.7, 3.6-3.13 on their own code objects; magics/dispatch translators; canonical observation (tools/harness/ops_marshal.py). Versions without an interpreter here rest on the transcription. Text payloads assumed valid UTF-8; 2.0 layout undecided; Dropbox/Graal bodies not modelled. No axioms.",
+        technique="Coq simulation proof (induction on fuel, reference-table relation) + vm_compute table obligations + in-Coq correspondence",
+        design="7/C01",
+    ),
+    "C10": dict(
+        text="Machine-checked Coq proof (C10_agree): for every magic, every byte stream and every related state of the reference/interned tables, whenever CPython's marshal.c reader (strict: validated sizes, digits, references, type codes per version; NULL in reserved slots) yields a value, xdis's reader yields the same value in kind and content - any type code, i/I/l ints, text/binary floats, s/t/R and u/a/A/z/Z strings, FLAG_REF on any object, r back-references, containers of any size, None keys/values - consumes the same bytes and leaves related tables (so shared sub-objects are equal at every reference). The simulation relation is not the identity (NULL vs placeholder slots). The dispatch table of the source equals the one the model assumes (obligation over the regenerated table).",
+        note="Trusted: as C01. The CPython side is validated against marshal.loads of the installed interpreters on generated streams incl. truncations; the xdis side against the running unmarshaller for 20 magics of 5 marshal families. Sets/dicts are compared up to order; colliding keys (1/True/1.0) are not generated. No axioms.",
+        technique="Coq simulation proof (induction on fuel, reference-table relation) + in-Coq correspondence on both sides",
+        design="7/C10",
+    ),
     "C15": dict(
         text="Machine-checked Coq proof: for every interpreter with dis.stack_effect installed (3.6-3.13), every opcode and EVERY operand (unbounded Z), wherever CPython's effect is defined xstack_effect returns the same number. xstack_effect is translated from its AST on every run into a decision chain that yields a formula (constant, linear, bit-select, lo+hi byte, popcount-of-4-flags, table) per (version, opname, pop, push, category); the reference is a formula per opcode fitted to and checked against dis.stack_effect (all operands < 2^16 in the thorough tier). Agreement of formulas is a vm_compute obligation; formula equality implies equality at all operands by a proved soundness lemma (incl. the single-bit mask normalisation). Translated model tied to the running function by in-Coq correspondence on all 39 tables.",
         note="Trusted: Coq kernel; fail-closed AST translator tools/translate/stackeffect.py (pattern -> formula constructor); opcode translator; reference formulas are empirical (fitted to the installed interpreters, C source not available), jump=None only. 2.5-3.5 have no reference here: only the translation tie is checked. No axioms.",
